@@ -1,7 +1,7 @@
 // C02: every block the builder produces verifies identically.
 //
 // Part A (inputs x configurations): every mempool sequence of <=3 (thorough 4 over a reduced
-// menu) items from a 15-item menu (valid, conflicting writers, failing action, undeclared
+// menu) items from a 16-item menu (valid, conflicting writers, failing action, undeclared
 // access, underfunded sponsor, expired, too-far-future, wrong chain id, duplicate of an
 // ancestor's transaction, unit hogs that do not fit / fit only alone, too many actions,
 // oversized for the target block size) x rules {generous, tight block limits} x parent
@@ -46,6 +46,7 @@ var (
 	k1 = rig.Key("k1", 1)
 	k2 = rig.Key("k2", 1)
 	kU = rig.Key("kU", 1)
+	kE = rig.Key("kE", 1)
 )
 
 type menuItem struct {
@@ -109,6 +110,9 @@ var menu = []menuItem{
 	{"delete k1", func(e *rig.Env, s int) *chain.Transaction {
 		return e.MakeTx(s, []chain.Action{act(s, 1, []rig.KeyPerm{dk(k1, state.Write)}, rig.Step{Kind: rig.Del, Key: k1})}, buildTs, rig.TxOpts{})
 	}},
+	{"read kE (present in the parent with a zero-length value)", func(e *rig.Env, s int) *chain.Transaction {
+		return e.MakeTx(s, []chain.Action{act(s, 1, []rig.KeyPerm{dk(kE, state.Read)}, rig.Step{Kind: rig.Get, Key: kE}, rig.Step{Kind: rig.Get, Key: kE})}, buildTs, rig.TxOpts{})
+	}},
 }
 
 const (
@@ -165,7 +169,7 @@ func newWorld(ek envKind) *world {
 	}
 	bal[poorSponsor] = 0
 	height := uint64(ek.parent)
-	env := rig.NewEnv(rig.EnvConfig{Rules: rules, Balances: bal, Height: height, Timestamp: parentTs, State: map[string][]byte{k1: []byte("1")}})
+	env := rig.NewEnv(rig.EnvConfig{Rules: rules, Balances: bal, Height: height, Timestamp: parentTs, State: map[string][]byte{k1: []byte("1"), kE: {}}})
 	w := &world{env: env}
 	// ancestor transaction (valid at buildTs as well: its expiry window covers both blocks)
 	w.ancestor = env.MakeTx(6, []chain.Action{act(999, 1, []rig.KeyPerm{dk(k2, state.All)}, rig.Step{Kind: rig.Append, Key: k2, Val: []byte("A")})}, buildTs, rig.TxOpts{})
@@ -364,7 +368,7 @@ func genCases(thorough bool) []caseSpec {
 		}
 	}
 	add(nil)
-	core := []int{0, 2, 3, 5, 6, 9, 10, 11, 13, 14} // order-sensitive / skip-path items for the deepest level
+	core := []int{0, 2, 3, 5, 6, 9, 10, 11, 13, 14, 15} // order-sensitive / skip-path items for the deepest level
 	var rec func(cur []int)
 	rec = func(cur []int) {
 		if len(cur) > 0 {
@@ -521,7 +525,7 @@ func main() {
 	r.Cov["build_errors_not_compared"] = tot["build_errors"]
 	r.Cov["executions_partB"] = tot["executions_partB"]
 	r.Cov["preemption_bound_partB"] = bBound
-	r.Cov["rule"] = "part A: every mempool sequence of <=2 items from the 15-item menu, every 3-item sequence whose third item is one of 10 order-sensitive items (thorough: all 3-item sequences + reduced 4-item sequences) x {generous, tight compute limit} x parent {height 0, height 1 carrying a transaction} x builder cores {1,4} (verifier uses the other), plus 6 mempools of 300 transactions with special items at the stream-batch boundaries; part B: 5 two-item mempools, every interleaving of the build loop within the preemption bound; builder and verifier share the real TimeValidityWindow"
+	r.Cov["rule"] = "part A: every mempool sequence of <=2 items from the 16-item menu, every 3-item sequence whose third item is one of 10 order-sensitive items (thorough: all 3-item sequences + reduced 4-item sequences) x {generous, tight compute limit} x parent {height 0, height 1 carrying a transaction} x builder cores {1,4} (verifier uses the other), plus 6 mempools of 300 transactions with special items at the stream-batch boundaries; part B: 5 two-item mempools, every interleaving of the build loop within the preemption bound; builder and verifier share the real TimeValidityWindow"
 	r.Assumptions = []string{"clock frozen at the build time (the builder stamps blocks with now)", "TargetBuildDuration = 1 h so that the loop ends by draining the mempool or filling the block", "a build that returns an error produces no block and is counted, not compared"}
 	r.Finish()
 }
